@@ -124,7 +124,8 @@ EV = ["cres", "cev"]
 PROPS = {
     "C01": dict(run=gateway_run(["stream", "gc", "query", "win-load", "win-query", "win-alias", "win-gc", "win-reset1", "win-reset2"], EV)),
     "C02": dict(run=tables.combine(gateway_run(["gc", "stream", "win-gc", "win-load", "ready"], EV), tables.tables_run(["gc"], "collector"))),
-    "C03": dict(run=gateway_run(["stream", "access", "win-load", "win-recheck", "win-reset2"], ["cev"])),
+    # on the query family events reach clients as derived change / add / remove sequences: a lost one shows as divergence (C01 predicate)
+    "C03": dict(run=gateway_run(["stream", "access", "win-load", "win-recheck", "win-reset2", "query"], ["cev"], also=("C01",), also_fams={"query"})),
     "C07": dict(run=gateway_run(["gc", "access", "win-gc", "win-recheck", "thr-ref1"], ["cres"])),
     "C08": dict(run=gateway_run(["gc", "cache", "win-gc", "win-evict"], ["cres"])),
     "C09": dict(run=gateway_run(["cache", "query", "win-evict"], ["msub", "munsub", "mreq"])),
@@ -329,7 +330,9 @@ def subaccess_model(ctx):
     return dict(coverage=cov, violations=[], level="model_checking", assumptions=["every access request is eventually answered or times out"])
 
 
-PROPS["C05"] = dict(run=tables.combine(subaccess_model, gateway_run(["access", "win-recheck", "win-indirect"], ["mreq", "note"]), tables.tables_run(["calllist"], "CanCall")))
+# (thr-reset1: token resets and token changes with a reset throttle configured - every auth request carries the connection's token)
+PROPS["C05"] = dict(run=tables.combine(subaccess_model, gateway_run(["access", "win-recheck", "win-indirect", "thr-reset1"], ["mreq", "note"]),
+                                       tables.tables_run(["calllist", "access"], "CanCall / access verdict")))
 TEXT["C05"] = _t("spec/SubAccess.tla (the subscription's access cache: one request in flight, waiting callers, cached answer, reaccess in epochs) is model-checked exhaustively: the cached answer was requested in the current epoch, no request is decided on an answer requested before the last reaccess that preceded it, every request is decided; the same module with Repaired = FALSE reproduces the repaired defect. Every access-cache note of the replayed gateway schedules is replayed through the same transitions (spec/SubAccessTrace.tla). The observer's access ledger requires for every forwarded call (attributed to client requests in FIFO order) a valid answer allowing the method ('*' or an exact entry), not invalidated by a processed trigger and not requested before a token change that it was handed over after; every access / call / auth request carries the connection's processed token. CanCall is checked exhaustively as a table against spec/fn/CallList.tla.",
                  "TLC exhaustive on SubAccess.tla + per-note conformance (SubAccessTrace.tla) + access ledger on gateway traces + exhaustive CanCall table")
 
